@@ -276,13 +276,14 @@ template std::complex<double> permanent_cpp<double>(
 Matrix<std::complex<double>> grad_perm(
     Matrix<std::complex<double>> &A, Vector<int> &rows, Vector<int> &cols)
 {
-    int n = static_cast<int>(rows.size());
+    int n_rows = static_cast<int>(rows.size());
+    int n_cols = static_cast<int>(cols.size());
 
-    Matrix<std::complex<double>> perm_grad(n, n);
+    Matrix<std::complex<double>> perm_grad(n_rows, n_cols);
 
-    for (int i = 0; i < n; ++i)
+    for (int i = 0; i < n_rows; ++i)
     {
-        for (int j = 0; j < n; ++j)
+        for (int j = 0; j < n_cols; ++j)
         {
             if (rows[i] == 0 || cols[j] == 0)
                 continue;
